@@ -40,8 +40,15 @@ impl Event {
 }
 
 thread_local! {
+    static LAST_PRETTY: RefCell<Option<String>> = const { RefCell::new(None) };
     static LOG: RefCell<Vec<Event>> = const { RefCell::new(Vec::new()) };
     static YIELD: RefCell<Option<Box<dyn Fn(&str)>>> = const { RefCell::new(None) };
+}
+
+/// The pretty-printed text of the graph returned by the last successful `execute` on this
+/// thread (taken, so that it is never attributed to a later run).
+pub fn take_last_pretty() -> Option<String> {
+    LAST_PRETTY.with(|l| l.borrow_mut().take())
 }
 
 pub fn log_clear() {
@@ -279,7 +286,11 @@ pub fn execute(
     let config = ExecutionConfig::new(functions, vars).lazy(lazy);
     let r = std::panic::catch_unwind(std::panic::AssertUnwindSafe(|| {
         match file.execute(tree, source, &config, flag) {
-            Ok(graph) => Outcome::Graph(cgraph(&graph)),
+            Ok(graph) => {
+                let p = format!("{}", graph.pretty_print());
+                LAST_PRETTY.with(|l| *l.borrow_mut() = Some(p));
+                Outcome::Graph(cgraph(&graph))
+            }
             Err(e) => Outcome::Error(cerr(&e)),
         }
     }));
